@@ -2,6 +2,8 @@ package c02
 
 import (
 	"fmt"
+	"github.com/jcmturner/gokrb5/v8/zzverif/vsched"
+	"time"
 
 	"verif/checks/apworld"
 	"verif/engine"
@@ -86,8 +88,126 @@ func throughVerifyAPREQ(c *engine.Ctx) {
 			}
 		}
 	}
+	// (b) one process, two service configurations with different clock skews, used alternately: what was accepted
+	// under one is still a replay when it comes back after the other was used
+	for _, et := range []int32{18, 23} {
+		vclock.Virtual(apworld.T0)
+		service.VerifResetReplayCache()
+		sA := service.NewSettings(kt, service.DecodePAC(false), service.MaxClockSkew(5*time.Minute))
+		sB := service.NewSettings(kt, service.DecodePAC(false), service.MaxClockSkew(2*time.Minute))
+		sC := service.NewSettings(kt, service.DecodePAC(false))
+		x, _ := w.Mint(apworld.Base(et))
+		other := apworld.Base(et)
+		other.CTime = 7 * time.Millisecond
+		y, _ := w.Mint(other)
+		other.CTime = 9 * time.Millisecond
+		z, _ := w.Mint(other)
+		rec := map[string]interface{}{"etype": et, "what": "X under skew 5m, Y under skew 2m, Z under the default skew, X again under each"}
+		ok1, e1 := present(x.APReq, sA)
+		present(y.APReq, sB)
+		present(z.APReq, sC)
+		n += 3
+		if !ok1 {
+			c.Violate("apreq", "valid-ap-req-rejected:two-skews", map[string]interface{}{"err": e1}, rec)
+			continue
+		}
+		for name, s := range map[string]*service.Settings{"5m": sA, "2m": sB, "default": sC} {
+			n++
+			if ok, _ := present(x.APReq, s); ok {
+				c.Violate("apreq", "double-accept:after-a-configuration-with-another-skew-was-used:again-under-"+name, nil, rec)
+			}
+		}
+		c.Distinct(fmt.Sprintf("apreq/two-skews/%d", et))
+	}
+	// (c) many other authenticators in between: X, then 3000 distinct authenticators of the same client and 3000 of
+	// other clients (all inside the window), then X again
+	{
+		service.VerifResetReplayCache()
+		vclock.Virtual(T0)
+		rc := service.GetReplayCache(skew)
+		x := P("A", 0, "S1")
+		sn, a := authenticator(x)
+		first := rc.IsReplay(sn, a)
+		for i := 1; i <= 3000; i++ {
+			o := P("A", time.Duration(i)*time.Millisecond, "S1")
+			s2, a2 := authenticator(o)
+			rc.IsReplay(s2, a2)
+			o2 := P(fmt.Sprintf("client%d", i), 0, "S1")
+			s3, a3 := authenticator(o2)
+			rc.IsReplay(s3, a3)
+		}
+		n += 6002
+		sn, a = authenticator(x)
+		if first || !rc.IsReplay(sn, a) {
+			c.Violate("apreq", "double-accept:after-6000-other-authenticators", map[string]interface{}{"first_presentation_called_replay": first}, map[string]interface{}{"history": "X, 3000 other authenticators of the same client, 3000 of other clients, X"})
+		} else {
+			c.Distinct("apreq/long-history")
+		}
+	}
 	c.Add("evaluations", n)
 	c.Cov["ap_req_level_presentations"] = n
+	concurrentVerifyAPREQ(c, w, kt)
+}
+
+// concurrentVerifyAPREQ: two (three in the thorough tier) threads present the same AP-REQ to service.VerifyAPREQ;
+// every interleaving at the synchronisation operations is explored; exactly one presentation is accepted.
+func concurrentVerifyAPREQ(c *engine.Ctx, w *apworld.World, kt *keytab.Keytab) {
+	nthreads := 2
+	if c.Thorough() {
+		nthreads = 3
+	}
+	for _, pac := range []bool{false, true} {
+		m, err := w.Mint(apworld.Base(18))
+		if err != nil {
+			engine.Fatal("mint: %v", err)
+		}
+		var accepted []bool
+		e := &engine.Explorer{Bound: 2, MaxPoints: 5000, Stop: c.Expired}
+		e.Exec = func(prefix []int) *vsched.Sched {
+			service.VerifResetReplayCache()
+			vclock.Virtual(apworld.T0)
+			accepted = make([]bool, nthreads)
+			s := service.NewSettings(kt, service.DecodePAC(pac))
+			return vsched.Run(prefix, e.MaxPoints, func() {
+				for i := 0; i < nthreads; i++ {
+					i := i
+					vsched.GoNamed(fmt.Sprintf("p%d", i), true, func() {
+						var ap messages.APReq
+						if ap.Unmarshal(m.APReq) != nil {
+							return
+						}
+						ok, _, _ := service.VerifyAPREQ(&ap, s)
+						accepted[i] = ok
+					})
+				}
+			})
+		}
+		e.Check = func(x *vsched.Sched) {
+			rec := map[string]interface{}{"threads": nthreads, "decode_pac": pac, "schedule": x.Choices(), "trace": engine.Describe(x)}
+			if x.Panic != "" {
+				c.Violate("apreq", "panic:concurrent-VerifyAPREQ", map[string]interface{}{"panic": x.Panic}, rec)
+				return
+			}
+			na := 0
+			for _, a := range accepted {
+				if a {
+					na++
+				}
+			}
+			switch {
+			case na > 1:
+				c.Violate("apreq", "sched:double-accept:same-AP-REQ-through-VerifyAPREQ", map[string]interface{}{"accepted": na}, rec)
+			case na == 0:
+				c.Violate("apreq", "valid-ap-req-rejected:concurrent-VerifyAPREQ", nil, rec)
+			default:
+				c.Distinct(fmt.Sprintf("apreq/concurrent/%v/%d", pac, len(x.Trace)))
+			}
+		}
+		e.Run(nil)
+		c.Add("schedules", e.Schedules)
+		c.Add("evaluations", e.Schedules)
+		c.Note("concurrent VerifyAPREQ (decode_pac=%v): schedules=%d capped=%v", pac, e.Schedules, e.Capped)
+	}
 }
 
 func errClass(e string) string {
